@@ -18,11 +18,13 @@
    source's bytes, owner and requested or own mode); nothing else appears at or below the destination; and
    everything outside it - the source included - is as before. It needs the keys below the source to be
    proper path names, which Memfs/Names.v proves an invariant of every call (every key comes out of
-   resolve, or is a prefix of such a path, or a re-rooted key), so it holds in every reachable state. Sources containing
-   links, copies into an existing directory and copies that follow links remain judged, not proved. *)
+   resolve, or is a prefix of such a path, or a re-rooted key), so it holds in every reachable state. When the
+   destination is an existing directory the same holds with dst/<name of the source> as the destination
+   (Memfs/CopyInto.v). Sources containing
+   links and copies that follow links remain judged, not proved. *)
 From stdpp Require Import gmap.
 From Coq Require Import NArith.
-From RV Require Import Base.Str Path.Helpers Path.Expand Memfs.State Memfs.Ops Memfs.Walk Memfs.WalkOps Memfs.Step Memfs.ContentFacts Memfs.MoveFacts Memfs.Wf Memfs.WfMove Memfs.CopyFacts Memfs.CopyFile Memfs.CopyDir Memfs.Refine Memfs.Names.
+From RV Require Import Base.Str Path.Helpers Path.Expand Memfs.State Memfs.Ops Memfs.Walk Memfs.WalkOps Memfs.Step Memfs.ContentFacts Memfs.MoveFacts Memfs.Wf Memfs.WfMove Memfs.CopyFacts Memfs.CopyFile Memfs.CopyDir Memfs.CopyInto Memfs.Refine Memfs.Names.
 
 Theorem C09_move_validation_frame : forall env m s d e m',
   move_validation env m s d = inr e -> move_op env m s d = Done (m', inr e) -> m' = m.
@@ -126,3 +128,15 @@ Print Assumptions C09_keys_invariant.
 Theorem C09_keys_initial : keys_ok mfs_init.
 Proof. exact keys_init. Qed.
 Print Assumptions C09_keys_initial.
+
+(* ... and with dst an existing directory: the copy lands under dst/<name of the source> *)
+Theorem C09_copy_dir_into : forall env m s d o sp dp b sd r pd,
+  WF m -> kinds_ok m -> keys_ok m -> cp_follow o = false -> resolve env m s = inl sp -> resolve env m d = inl dp ->
+  sp = b :: sd -> m_ents m !! sp = Some r -> real_dir r -> m_ents m !! dp = Some pd -> real_dir pd -> m_ents m !! (b :: dp) = None ->
+  ~ sp `suffix_of` (b :: dp) -> (forall q x, sp `suffix_of` q -> m_ents m !! q = Some x -> e_link x = false) ->
+  exists m', copy_op env m s d o = Done (m', inl tt) /\ WF m' /\ kinds_ok m' /\ m_cwd m' = m_cwd m /\
+    (forall j x, m_ents m !! (j ++ sp) = Some x -> abs_nodes m' !! (j ++ b :: dp) = Some (cnode m o sp (b :: dp) x)) /\
+    (forall j, m_ents m !! (j ++ sp) = None -> abs_nodes m' !! (j ++ b :: dp) = None) /\
+    (forall k, ~ (b :: dp) `suffix_of` k -> abs_nodes m' !! k = abs_nodes m !! k).
+Proof. exact copy_dir_into. Qed.
+Print Assumptions C09_copy_dir_into.
